@@ -480,6 +480,13 @@ def fam_keepalive(rng, tier):
         ev = [(I * 1000 + 200, ("part", 1, "x", 0))] + [(300, ("part", 0, "y", 0)) for _ in range(int((8 * I + 6 * T) * 1000 / 300))]
         out.append({"tid": "ka%d" % n, "conns": [{"events": ev, "pong": None}], "run": {"ping_interval": I, "ping_timeout": T},
                     "horizon": (8 * I + 6 * T) * 1000, "pattern": "endless_fragments"})
+    # the same silence inside a frame on a transport the application prepared itself with a long timeout of its own
+    for I, T in ((3, 1), (5, 2)):
+        for pst in (30, 600):
+            n += 1
+            out.append({"tid": "ka%d" % n, "conns": [{"events": [(I * 1000 + 500, ("partial", b"\x82\x05ab"))], "pong": {"stop_after": 0, "latency": 0}}],
+                        "run": {"ping_interval": I, "ping_timeout": T}, "prepared_socket_timeout": pst, "horizon": (8 * I + 6 * T) * 1000,
+                        "pattern": "silent_mid_frame_prepared"})
     # a responsive peer whose frames arrive slowly: the two halves of a frame further apart than the timeout, between two
     # pings that are both answered at once - never reported, the message is delivered when it is complete
     for I, T in ((5, 2), (7, 3), (4, 1)):
